@@ -228,7 +228,11 @@ def run(ck, m):
     effs, raw = m.arm_effects('ReplicateRequest')
     redis = [ev for ev in raw if ev.kind == 'stop' and ev.frame.body.id == d.id]
     tgt = sw[1]['ReplicateRequest']
-    okg = len(redis) == 1 and d.postdominates(redis[0].bi, tgt)
+    # an acknowledged message is dispatched: the re-dispatch post-dominates every acknowledgement of the arm (a message that is
+    # refused before it is acknowledged — a malformed wrapper — is not counted as replicated by its sender)
+    acks = [ev.bi for ev, kind, info in effs if kind == 'send' and 'client' in info['chan'] and ev.frame.body.id == d.id]
+    okg = len(redis) == 1 and bool(acks) and all(d.postdominates(redis[0].bi, a) for a in acks) and \
+        not any(a in d.reach_from([redis[0].bi]) for a in acks)
     ck.ob('C04.g', 'dispatcher', 'rp-always-dispatches', okg,
           'every rp message that is acknowledged is also dispatched' if okg else
           'the rp wrapper can acknowledge a message and return without dispatching it (%d dispatch sites): the change is lost on this '
